@@ -36,7 +36,9 @@ BASES = ["8.3.0", "8.2.0", "testlib_2.0.0", "score_2.0.0"]
 DESC_CHARS = ["plain words", "a = b", "it's \"quoted\"", "'''bold'''", "café über", "semi; colon: dash - ok",
               "trailing dot.", "(parenthesised)", "50% of x/y", "a, b and c", "x\\y", "#hash *star* <tag>", "  padded  ",
               "line\u2028separator", "paragraph\u2029separator", "no-break\u00a0space",
-              "\"Quoted\" at the start", "'single' at the start", "ends with a \"quote\""]
+              "\"Quoted\" at the start", "'single' at the start", "ends with a \"quote\"",
+              # whole texts that table readers like to take for "no value"
+              "n/a", "NA", "None", "null", "nan", "N/A"]
 BOOL_ATTRS = ["extensionAllowed", "requireChild", "tagGroup", "topLevelTagGroup", "unique", "reserved"]
 
 
@@ -49,7 +51,7 @@ def model_of(root):
         for a in elem.findall(tag):
             vals = []
             for v in a.findall("value"):
-                vals += [x for x in (v.text or "").split(",")]
+                vals.append(v.text or "")        # one value per <value> element, as written (no re-splitting)
             d.setdefault(a.findtext("name"), []).extend(vals)
         return d
 
